@@ -161,16 +161,40 @@ class Op(Expr):
     def __repr__(self):
         return "Op(%s,%s)" % (self.op, ",".join(repr(arg) for arg in self.args))
 
+    # Binding strength of the operators, as in the grammar of parser2.
+    priorities = {
+        "-->": 25, "<-->": 25, "|": 30, "&": 35, "~": 40,
+        "==": 50, "!=": 50, "<=": 50, "<": 50, ">=": 50, ">": 50,
+        "+": 65, "-": 65, "*": 70,
+    }
+
+    def priority(self):
+        if self.op == "-" and len(self.args) == 1:
+            return 80
+        return Op.priorities[self.op]
+
     def __str__(self):
+        def print_arg(arg, bracket_below, bracket_equal):
+            if isinstance(arg, Op):
+                p = arg.priority()
+            elif isinstance(arg, (ITE, Forall)):
+                p = 0  # extends as far to the right as possible
+            else:
+                p = 100
+            if p < bracket_below or (bracket_equal and p == bracket_below):
+                return '(' + str(arg) + ')'
+            return str(arg)
+
+        p = self.priority()
         if len(self.args) == 1:
-            return "%s%s" % (self.op, str(self.args[0]))
+            return "%s%s" % (self.op, print_arg(self.args[0], p, False))
         elif len(self.args) == 2:
-            arg1 = str(self.args[0])
-            arg2 = str(self.args[1])
-            if self.op == '*' and isinstance(self.args[0], Op) and self.args[0].op in ('+', '-'):
-                arg1 = '(' + arg1 + ')'
-            if self.op == '*' and isinstance(self.args[1], Op) and self.args[1].op in ('+', '-'):
-                arg2 = '(' + arg2 + ')'
+            if self.op in ('+', '-', '*'):  # left associative
+                arg1 = print_arg(self.args[0], p, False)
+                arg2 = print_arg(self.args[1], p, True)
+            else:  # right associative
+                arg1 = print_arg(self.args[0], p, True)
+                arg2 = print_arg(self.args[1], p, False)
             return "%s %s %s" % (arg1, self.op, arg2)
         else:
             raise NotImplementedError
